@@ -19,19 +19,19 @@ PRED = {
     "C01": "Props.P_C01 (ObsEq pre/undo, post/redo; primitives under PrimPre) + TraceHist Walk",
     "C02": "MCHist (AtTimeline, RetUndo/RetRedo, NoopAtEnds, Grows) + TraceHist Walk / Lock",
     "C03": "Props.P_C03 (Forest, Conflicting => refused, Removable) + session invariant",
-    "C04": "Props.P_C04 (TidOK, Untouched frame clause) + session invariant",
-    "C05": "Props.P_C05 (LidOK, Untouched frame clause) + session invariant",
+    "C04": "Props.P_C04 (TidOK, Untouched frame clause; P_C04Ctor after construction) + session invariant",
+    "C05": "Props.P_C05 (LidOK, Untouched frame clause; P_C05Ctor after construction) + session invariant + Import.LidsOK (construction by import)",
     "C06": "Props.P_C06 + TraceStep.P_C06R (LookupOK, NoDupLookups, QueriesOK, NewIdsOK) + session-final queries",
     "C07": "Props.P_C07 + TraceStep.P_C07R (SegOK, painted-array clauses, pixel query, bit-exact undo)",
     "C08": "Props.P_C08 (AreaOK, PosOK recomputed as rationals; ShapeOK via from-scratch digests)",
     "C09": "Props.P_C09 (IoUOK recomputed as rationals; incremental and bulk)",
     "C10": "Props.P_C10 (RegistryOK, KeyError clause, reference values after enable, SameFeature, ManagedKey)",
-    "C11": "Props.P_C11 (FullEq(post, pre), no emission)",
-    "C12": "Import.ImportOK / TraceImport, GeffMap.MapOK / TraceGeffMap",
+    "C11": "Props.P_C11 (FullEq(post, pre), no emission) + TraceStep.P_C11R (lookup keys)",
+    "C12": "Import.ImportOK / TraceImport, GeffMap.MapOK / TraceGeffMap, MapValid.MapOK / TraceMapValid",
     "C13": "Relabel.RelabelOK / TraceRelabel",
     "C14": "TraceExport.RoundTrip",
     "C15": "TraceExport.SubsetOK (Anc closure)",
-    "C16": "TraceExport.Unmodified",
+    "C16": "TraceExport.Unmodified (incl. registry metadata digest)",
     "C17": "NameMap.MapOK (Partition, ExactKeys) / TraceNameMap",
     "C18": "CandGraph.Inv_Edges / TraceCandGraph, TraceCandSeg (NodesOK, EdgesOK)",
     "C19": "Labels.UniqueOK / TraceLabels, TrackLabels.RelabelOK / TraceTrackLabels",
